@@ -24,6 +24,7 @@ import H4.Driver.DD
 import H4.Driver.Tools
 import H4.Driver.Ro
 import H4.Driver.Ids
+import H4.Driver.Crash
 open H4.Driver
 
 /-- state of every stateful engine; reset at each `CASE` line -/
@@ -44,12 +45,14 @@ structure World where
   dd : DDState := {}
   ro : RoSt := {}
   ids : IdsSt := {}
+  crash : H4.DD.OpenTab := {}
 
 def stepWorld (w : World) (engine : String) (args : List String) : World × String :=
   match engine with
   | "rle" => (w, stepRle args)
   | "ro" => let (r, out) := stepRo w.ro args; ({ w with ro := r }, out)
   | "ids" => let (r, out) := stepIds w.ids args; ({ w with ids := r }, out)
+  | "crash" => let (r, out) := stepCrash w.crash args; ({ w with crash := r }, out)
   | "dfrle" => (w, stepDfrle args)
   | "xapi" => (w, stepXapi args)
   | "dd" => let (d, out) := stepDD w.dd args; ({ w with dd := d }, out)
